@@ -1167,6 +1167,38 @@ theorem full_case {c : LRU} (h : Inv c) {k : Bytes} (v : Bytes) (hl : alookup k 
       show (c.pushNew k v).evictOldest.1.evictList = _
       rw [e2, hev1, List.dropLast_concat]
 
+/-- `Peek`/`Contains` read through the map what a scan of the list for the key would find -/
+theorem peek_eq_find {c : LRU} (h : Inv c) (k : Bytes) :
+    c.peek k = (c.evictList.find? (·.key == k)).map (·.val) := by
+  cases hl : alookup k c.items with
+  | some id =>
+    obtain ⟨e, _, _, _, hf, hd⟩ := h.core.resolve hl
+    simp only [LRU.peek, hl, hd, hf]
+  | none => simp only [LRU.peek, hl, h.core.absent hl]; rfl
+
+theorem contains_eq_find {c : LRU} (h : Inv c) (k : Bytes) :
+    c.contains k = (c.evictList.find? (·.key == k)).isSome := by
+  rw [LRU.contains, h.core.lookup]
+  cases c.evictList.find? (·.key == k) <;> rfl
+
+/-- the lookups after a refresh of `e` (possibly with a new value `w`) -/
+theorem peek_touch {c : LRU} (h : Inv c) {e : Elem} (he : e ∈ c.evictList) (w : Bytes) :
+    let c' : LRU := { c with evictList := { e with val := w } :: c.evictList.filter (·.key != e.key) }
+    c'.peek e.key = some w ∧ ∀ k', k' ≠ e.key → c'.peek k' = c.peek k' := by
+  intro c'
+  have hi : Inv c' := (touch_refines h he w).1
+  refine ⟨?_, ?_⟩
+  · rw [peek_eq_find hi]
+    show ((({ e with val := w } : Elem) :: c.evictList.filter (·.key != e.key)).find? (·.key == e.key)).map (·.val) = _
+    simp
+  · intro k' hk
+    rw [peek_eq_find hi, peek_eq_find h]
+    show ((({ e with val := w } : Elem) :: c.evictList.filter (·.key != e.key)).find? (·.key == k')).map (·.val) = _
+    have : (e.key == k') = false := by simp; exact fun e => hk e.symm
+    rw [List.find?_cons]
+    simp only [this]
+    rw [find_filter_key, if_neg hk]
+
 /-- the evicted entry is the least recently used one: `Add` evicts iff the key is new and the cache is full; then the
     callback gets exactly the back element of the list = the head of `Keys()` (oldest first) = what `GetOldest` shows,
     that key is gone, and `Keys()` afterwards is the old `Keys()` without its head, followed by the new key.
@@ -1191,8 +1223,8 @@ theorem lib_add_evicts_lru (c : LRU) (k v : Bytes) (h : Inv c) :
       have hlen : c.len = c.size := by show c.evictList.length = c.size; omega
       have h21 : (c.add k v).2.1 = true := by rw [h2]
       have h22 : (c.add k v).2.2 = [o.kv] := by rw [h2]
-      refine ⟨by rw [h21, hc, hlen]; simp, fun hf => by rw [h21] at hf; cases hf, fun _ => ?_⟩
-      refine ⟨o, by rw [DL.back, hinit]; exact List.getLast?_concat, h22, ?_, ?_, ?_⟩
+      refine ⟨(by rw [h21, hc, hlen]; simp), (fun hf => by rw [h21] at hf; cases hf), fun _ => ?_⟩
+      refine ⟨o, (by rw [DL.back, hinit]; exact List.getLast?_concat), h22, ?_, ?_, ?_⟩
       · simp [LRU.keys, hinit]
       · simp [LRU.keys, hinit, h3]
       · have hi := inv_add c k v h
@@ -1214,7 +1246,7 @@ theorem lib_add_evicts_lru (c : LRU) (k v : Bytes) (h : Inv c) :
     · have hadd := room_case v hl (by omega)
       have hlen : ¬ c.len = c.size := by show ¬ c.evictList.length = c.size; omega
       rw [hadd, hc]
-      exact ⟨by simp [hlen], fun _ => rfl, fun hf => by cases hf⟩
+      exact ⟨(by simp [hlen]), fun _ => rfl, fun hf => by cases hf⟩
 
 /-- `Add` of a present key does not evict, does not invoke the callback, keeps `Len`, overwrites the value and makes
     the key the most recently used one; nothing else moves -/
@@ -1236,9 +1268,87 @@ theorem lib_add_present (c : LRU) (k v : Bytes) (h : Inv c) (hc : c.contains k =
     · simp only [LRU.keys, List.reverse_cons, List.map_append, List.map_cons, List.map_nil, List.filter_map,
         List.filter_reverse]
       rfl
-    · obtain ⟨e', _, _, _, hpk, _, _⟩ := present_case hi v (show alookup e.key c.items = some id from hl)
-      rw [hpk]
-      sorry
-    · sorry
+    · exact (peek_touch h he v).1
+    · exact (peek_touch h he v).2
+
+/-- after `Add(k, v)` the front element carries `(k, v)`: the key just written is the most recently used one and is
+    never the one evicted -/
+theorem add_front (c : LRU) (k v : Bytes) (h : Inv c) :
+    ∃ i rest, (c.add k v).1.evictList = ⟨i, k, v⟩ :: rest := by
+  cases hl : alookup k c.items with
+  | some id =>
+    obtain ⟨e, _, hek, _, _, hadd, _⟩ := present_case h v hl
+    rw [hadd]
+    exact ⟨e.id, _, by rw [← hek]⟩
+  | none =>
+    by_cases hgt : c.evictList.length + 1 > c.size
+    · obtain ⟨o, init, _, _, h3⟩ := full_case h v hl hgt
+      exact ⟨_, _, h3⟩
+    · rw [room_case v hl (by omega)]
+      exact ⟨_, _, rfl⟩
+
+theorem lib_add_then_read (c : LRU) (k v : Bytes) (h : Inv c) :
+    (c.add k v).1.contains k = true ∧ (c.add k v).1.peek k = some v ∧ (c.add k v).1.keys.getLast? = some k := by
+  have hi := inv_add c k v h
+  obtain ⟨i, rest, hev⟩ := add_front c k v h
+  refine ⟨?_, ?_, ?_⟩
+  · rw [contains_eq_find hi, hev]; simp
+  · rw [peek_eq_find hi, hev]; simp
+  · rw [LRU.keys, hev]; simp
+
+/-- `Get`, `Contains`, `Peek` agree on presence and on the value; `Contains` and `Peek` leave the cache as it is (their
+    model has no resulting state at all), `Get` of an absent key too; `Get` of a present key moves it to the most recent
+    end of `Keys()` and changes nothing else -/
+theorem lib_get_contains_peek (c : LRU) (k : Bytes) (h : Inv c) :
+    (c.get k).2 = c.peek k ∧ (c.peek k).isSome = c.contains k ∧
+    (c.step (.contains k)).1 = c ∧ (c.step (.peek k)).1 = c ∧
+    (c.contains k = false → (c.get k).1 = c) ∧
+    (c.contains k = true → (c.get k).1.keys = c.keys.filter (· != k) ++ [k] ∧ (c.get k).1.len = c.len) ∧
+    (∀ k', (c.get k).1.peek k' = c.peek k') := by
+  cases hl : alookup k c.items with
+  | some id =>
+    obtain ⟨e, he, hek, _, hpk, _, hget⟩ := present_case h [] hl
+    subst hek
+    have hc : c.contains e.key = true := by rw [LRU.contains, hl]; rfl
+    rw [hget, hpk, hc]
+    refine ⟨rfl, rfl, rfl, rfl, (fun hf => by cases hf), fun _ => ⟨?_, ?_⟩, ?_⟩
+    · simp only [LRU.keys, List.reverse_cons, List.map_append, List.map_cons, List.map_nil, List.filter_map,
+        List.filter_reverse]
+      rfl
+    · exact length_touch h.core he
+    · intro k'
+      obtain ⟨t1, t2⟩ := peek_touch h he e.val
+      by_cases hk : k' = e.key
+      · rw [hk, hpk]; exact t1
+      · exact t2 k' hk
+  | none =>
+    have hc : c.contains k = false := by rw [LRU.contains, hl]; rfl
+    have hget : c.get k = (c, none) := by simp only [LRU.get, hl]
+    have hpk : c.peek k = none := by simp only [LRU.peek, hl]
+    rw [hget, hpk, hc]
+    exact ⟨rfl, rfl, rfl, rfl, fun _ => rfl, (fun hf => by cases hf), fun _ => rfl⟩
+
+/-- `ContainsOrAdd` reports `ok` = the key was resident; then nothing at all happens (no refresh, no overwrite, no
+    callback).  Otherwise it is `Add`: the key is resident afterwards with the given value, `evicted` is `Add`'s flag,
+    i.e. true exactly when the cache was full, and the callback gets `Add`'s (the least recently used) entry. -/
+theorem lib_containsOrAdd (c : LRU) (k v : Bytes) (h : Inv c) :
+    (c.containsOrAdd k v).2.1 = c.contains k ∧
+    (c.contains k = true → c.containsOrAdd k v = (c, true, false, [])) ∧
+    (c.contains k = false →
+      (c.containsOrAdd k v).1 = (c.add k v).1 ∧ (c.containsOrAdd k v).2.2 = (c.add k v).2 ∧
+      (c.containsOrAdd k v).1.contains k = true ∧ (c.containsOrAdd k v).1.peek k = some v ∧
+      (c.containsOrAdd k v).2.2.1 = decide (c.len = c.size)) := by
+  cases hc : c.contains k with
+  | true =>
+    simp only [LRU.containsOrAdd, hc, if_true]
+    exact ⟨trivial, fun _ => trivial, fun hf => by cases hf⟩
+  | false =>
+    have hcoa : c.containsOrAdd k v = ((c.add k v).1, false, (c.add k v).2.1, (c.add k v).2.2) := by
+      simp only [LRU.containsOrAdd, hc, Bool.false_eq_true, if_false]
+    obtain ⟨r1, r2, _⟩ := lib_add_then_read c k v h
+    have hflag := (lib_add_evicts_lru c k v h).1
+    rw [hc] at hflag
+    rw [hcoa]
+    exact ⟨rfl, (fun hf => by cases hf), fun _ => ⟨rfl, rfl, r1, r2, (by rw [hflag]; rfl)⟩⟩
 
 end SV.LRU.Lib
